@@ -5,6 +5,7 @@
   granularity — the broker is single-threaded and each callback runs to completion).
 -/
 import Hpfeeds.Lemmas.BrokerDeliv
+import Hpfeeds.Lemmas.BrokerChunk
 namespace Hpfeeds.C01
 open Hpfeeds Hpfeeds.Broker Extracted
 
@@ -89,6 +90,18 @@ theorem accepted_only_after_checks (cfg : Cfg) (es : List Event) (a : Accepted)
     (ha : a ∈ (run cfg es).accepted) : a.srcAk = some a.ident ∧ a.chan ∈ a.srcPubchans :=
   ⟨((deliv_run cfg es).acc a ha).ident, ((deliv_run cfg es).acc a ha).chan⟩
 
+/-- EVERY WAY THE INBOUND BYTE STREAMS ARE CHUNKED.  In ANY state, for ANY split `a ++ b` of what connection
+    `c` receives: if handling `a` ran to the end of its complete frames (it did not park behind an
+    asynchronous AUTH, no handler raised, no bad header — i.e. `c` can still receive data), then delivering `a`
+    and then `b` leaves the broker in EXACTLY the state of delivering `a ++ b` at once: every connection's
+    log, the registry, the gauges, the accepted log.  By induction this covers every chunking of a stream; a
+    history is therefore determined by the per-connection byte streams and the points at which other
+    connections' events interleave. -/
+theorem chunking_irrelevant (cfg : Cfg) (s : State) (c : Nat) (x : Conn) (a b : Bytes) (hx : s.conn c = some x)
+    (hc : (loop cfg c s (x.buf ++ a)).2.2 = .cont) (hw : header (loop cfg c s (x.buf ++ a)).2.1 = .wait) :
+    step cfg (step cfg s (.data c a)) (.data c b) = step cfg s (.data c (a ++ b)) :=
+  data_chunking cfg s c x a b hx hc hw
+
 /-! non-vacuity (kernel-evaluated): two connections authenticate against a synchronous store (hash := id,
     so the digest is nonce ++ secret), both subscribe to channel "c", connection 1 publishes one byte:
     the accepted log has one entry whose recipients are exactly [1, 2]. -/
@@ -104,5 +117,12 @@ example : (run exCfg exHistory).accepted.map (fun a => (a.src, a.recips, a.entit
     [(1, [2, 1], [1, 2], [7])] := by decide +kernel
 example : ((run exCfg exHistory).conn 2).map (fun y => pubFrames y.out) =
     some [pubFrame [97] [99] [7]] := by decide +kernel
+
+/-- the chunking theorem applies: connection 1's stream AUTH ++ SUB ++ PUB cut inside the PUBLISH header -/
+def exS : State := run exCfg [.connect 1 [1,2,3,4], .connect 2 [5,6,7,8], .data 2 (exAuth [5,6,7,8] ++ exSub)]
+example : step exCfg (step exCfg exS (.data 1 (exAuth [1,2,3,4] ++ exSub ++ exPub.take 3))) (.data 1 (exPub.drop 3)) =
+    step exCfg exS (.data 1 ((exAuth [1,2,3,4] ++ exSub ++ exPub.take 3) ++ exPub.drop 3)) :=
+  chunking_irrelevant exCfg exS 1 ((exS.conn 1).get (by decide +kernel)) _ _ (by simp)
+    (by decide +kernel) (by decide +kernel)
 
 end Hpfeeds.C01
